@@ -524,8 +524,7 @@ type schedule struct {
 
 func schedules(thorough bool) []schedule {
 	s := []schedule{
-		{"top", []int{0}, false},
-		{"go", []int{ctxGo}, false},
+		{"top / from Go", []int{0, ctxGo}, false},
 		{"ascending depth", []int{0, 1, 2, 3}, true},
 		{"descending depth", []int{3, 2, 1, 0}, false},
 		{"iter/ref/try stacks", []int{4, 5, 8, 6, 7}, true},
@@ -580,7 +579,15 @@ func run(r *core.Run) {
 	}
 	complete := true
 	var stages []string
+	// the attribution cache of a worker is keyed by body: clearing it between stages keeps the result
+	// independent of which worker happens to process a body
+	reset := func() {
+		for _, w := range workers {
+			w.sigs = nil
+		}
+	}
 	stage := func(name string, ok bool) bool {
+		reset()
 		if ok {
 			stages = append(stages, name)
 			r.Set("stages_completed", stages)
@@ -615,7 +622,7 @@ func run(r *core.Run) {
 	}
 
 	// stage 0: regression corpus (the minimal inputs of the listed findings)
-	runRegress(r, workers[0])
+	runRegress(r, &worker{r: r})
 
 	qb := quickBounds()
 	quick := filter(Enumerate(qb), nil)
@@ -641,7 +648,7 @@ func run(r *core.Run) {
 		r.Set("thorough_bounds", boundsText(tb))
 		_ = genStage("gen/quick bounds", quick, 5, scheds) &&
 			asyncStage("async/thorough bounds", deep) &&
-			genStage("gen/thorough bounds", deep, 4, schedules(true)[4:8]) &&
+			genStage("gen/thorough bounds", deep, 4, schedules(true)[3:7]) &&
 			productStage(corpus, 4) &&
 			genStage("gen/quick bounds", quick, 6, scheds[:2])
 	}
